@@ -41,6 +41,20 @@ Families
   accept exactly one assignment (`only`) or exactly the non-minimal assignments (`nonmin`), and — const family —
   constant PCBO / PCSO whose recorded constraint rejects `{}`.
 
+  (round 4)
+  multi      now also maintenance calls and in-place rebuilds between the calls: `clear()`, clear-and-refill with
+             another label set (old labels in a new order, brand-new labels), `update({...})`, `del`, `copy()`,
+             `round()`, `*= dict` / `*= c` (incl. 0) / `**= 2` / `/= c` (all of `*`, `**` go through `clear()`), products
+             in which a label drops out (spin `z*z`, boolean `x*(1-x)`) followed by a new variable, and self-aliased
+             operands (`H -= H`, `H += H`, `H *= H`, `H.update(H)`).  Signature `C09:multi`
+  vtypes     coefficient types bool / numpy.int64 / numpy.float64 / ints scaled by 2**60+1 (exact in int, not in
+             float), `valid` callbacks returning numpy.bool_ / int / an arbitrary truthy-falsy object, keyword
+             arguments (`valid=`, `all_solutions=`), label styles of `Labels.STYLES_XEQ` (floats, bools, labels equal
+             across types — for `xeq` the several stored spellings of one monomial are merged on both sides)
+  The table of `is_solution_valid` handed to the model and the oracle for PCBO / PCSO methods is computed by the
+  harness itself from the recorded constraint polynomials (own evaluation, own relation table); no helper of the
+  implementation is used to judge the implementation.
+
 The corner (constant model, `valid({})` false): the property's clause 3 ("no assignment valid => objective None")
 and clause 4 ("constant model => the constant with an empty assignment") contradict each other there.  The code
 follows clause 4 (it returns before the loop and never calls `valid`; Lean: `constant_model_ignores_valid`,
@@ -117,8 +131,17 @@ def free_fn(fn):
 def lab_of(L, i):
     return "__a%d" % (i - ANC) if i >= ANC else L.lab(i)
 
+BIG = (1 << 60) + 1        # style "big": every integer coefficient is scaled by 2**60 + 1 (exact in int, not in float)
+
 def num_of(s, style):
     f = Fraction(s)
+    if style == "bool" and f in (0, 1):
+        return bool(f)
+    if style == "big" and f.denominator == 1:
+        return int(f) * BIG
+    if style == "np" and (f.denominator & (f.denominator - 1)) == 0:
+        import numpy as np
+        return np.int64(int(f)) if f.denominator == 1 else np.float64(float(f))
     if style == "float" and (f.denominator & (f.denominator - 1)) == 0:
         return float(f)
     if f.denominator == 1 and style != "frac":
@@ -366,15 +389,21 @@ def fill_pred(case, obj, L):
                 "xs": [sorted([L.ident(l), str(v)] for l, v in zip(labs, vals)) for val, vals in tabv if val != m]}
     if case["via"] == "method" and hasattr(obj, "constraints") and obj.constraints:
         # the predicate of the method is the object's own is_solution_valid, passed to the model as a table
+        # (computed here from the recorded constraint polynomials — data of the object — with the harness' own
+        # evaluation and relation table; the implementation's is_solution_valid is not consulted)
         tab = []
-        probe = obj.copy()
+        rel_ok = {"eq": lambda v: v == 0, "ne": lambda v: v != 0, "lt": lambda v: v < 0, "le": lambda v: v <= 0,
+                  "gt": lambda v: v > 0, "ge": lambda v: v >= 0}
+        recorded = [(rel, dict(P)) for rel, Ps in obj.constraints.items() for P in Ps]
+        if any(l not in labs for _, P in recorded for k in P for l in k):
+            return None          # a recorded constraint mentions a label outside the model's variables
         try:
             for vals in itertools.product((1, -1) if spin else (0, 1), repeat=len(labs)):
                 x = dict(zip(labs, vals))
-                if probe.is_solution_valid(x):
+                if all(rel_ok[rel](poly_value(P, x)) for rel, P in recorded):
                     tab.append(sorted([L.ident(l), str(v)] for l, v in x.items()))
         except KeyError:
-            return None          # is_solution_valid is not defined on the assignments over the model's variables
+            return None          # a recorded constraint mentions a label outside the model's variables
         pred = {"t": "table", "xs": tab}
     return pred
 
@@ -430,17 +459,29 @@ def run_impl(case, obj, pred, L):
     """returns (canonical result, raw result, log)"""
     log = []
     valid = make_valid(pred, L)
+    vret = case.get("vret")
     def wrapped(x):
         if not isinstance(x, dict):
             log.append("valid was called with a %s" % type(x).__name__)
-        return valid(x)
+        r = valid(x)
+        if vret == "npbool":
+            import numpy as np
+            return np.bool_(r)
+        if vret == "int":
+            return int(r)
+        if vret == "obj":
+            return [0] if r else []          # any truthy / falsy object
+        return r
     before = snap(obj)
     try:
         if case["via"] == "method":
             raw = obj.solve_bruteforce(case["all"]) if case.get("posarg", True) else obj.solve_bruteforce(all_solutions=case["all"])
             res = (None, raw)
         else:
-            raw = free_fn(case["fn"])(obj, case["all"], wrapped)
+            if case.get("kw"):
+                raw = free_fn(case["fn"])(obj, valid=wrapped, all_solutions=case["all"])
+            else:
+                raw = free_fn(case["fn"])(obj, case["all"], wrapped)
             res = raw
             if not (isinstance(raw, tuple) and len(raw) == 2):
                 log.append("result is not a pair")
@@ -486,7 +527,14 @@ def canon_model(m, case):
         if "one" in sol:
             return {"one": sorted(sol["one"])}
         return {"many": sorted(sorted(a) for a in sol["many"])}
-    out = {"sol": cs(res["sol"]), "after": sorted(([sorted(k), v] for k, v in res["after"]), key=lambda t: (t[0], t[1]))}
+    after = [[sorted(k), v] for k, v in res["after"]]
+    if case.get("labels") == "xeq":
+        # several stored spellings of one monomial: compare the represented polynomial, as `canon_terms` does
+        acc = {}
+        for k, v in after:
+            acc[tuple(k)] = acc.get(tuple(k), Fraction(0)) + Fraction(v)
+        after = [[list(k), fs(v)] for k, v in acc.items() if v != 0]
+    out = {"sol": cs(res["sol"]), "after": sorted(after, key=lambda t: (t[0], t[1]))}
     if case["via"] != "method":
         out["obj"] = res["obj"]
     many = res["sol"]["many"] if case["all"] else alt["sol"]["many"]
@@ -849,6 +897,30 @@ def tie_case(rng, family):
     c["family"] = "plateau"
     return c
 
+def vtype_case(rng):
+    """coefficient types beyond int / float / Fraction (bool, numpy.int64 / numpy.float64, ints above 2**53), `valid`
+    callbacks that return numpy.bool_ / int / an arbitrary truthy-falsy object, keyword arguments, and the label
+    styles of `Labels.STYLES_XEQ` (incl. labels that are equal across types)"""
+    fam = rng.choice(["free", "free", "method"])
+    c = gen_case(rng, fam)
+    style = rng.choice(["bool", "np", "big", "big"])
+    if c["kind"] == "PCSO" and c.get("cons"):
+        style = "bool"                    # spin constraints halve coefficients in float arithmetic
+    if style == "np":
+        c["terms"] = [[k, v if dyadic(v) else "1/2"] for k, v in c["terms"]]
+    if style == "bool":
+        c["terms"] = [[k, v if rng.random() < 0.5 else rng.choice(["1", "1", "0"])] for k, v in c["terms"]]
+        if c["kind"] != "dict":
+            c["terms"] = [[k, v] for k, v in c["terms"]]
+    c["num"] = style
+    c["vret"] = rng.choice([None, "npbool", "int", "obj"])
+    c["kw"] = rng.random() < 0.5
+    c["posarg"] = rng.random() < 0.5
+    if c["kind"] not in MATRIX:
+        c["labels"] = rng.choice(Labels.STYLES_XEQ)
+    c["family"] = "vtypes"
+    return c
+
 # --- `valid` raises on some assignments: does the exception reach the caller unchanged, is the model unchanged?
 
 class ValidBoom(Exception):
@@ -935,7 +1007,10 @@ def run_raise(ctx, c):
 
 # --- several calls on the same object, with edits in between (solve, mutate, solve, ...)
 
-MUT_OPS = ["set", "add", "cancel", "offset", "newvar", "refresh", "cons", "popoffset"]
+MUT_OPS = ["set", "add", "cancel", "offset", "newvar", "refresh", "cons", "popoffset",
+           # round 4: maintenance calls and in-place rebuilds (`*=`, `**=` go through clear()), self-aliased operands
+           "clear", "fill", "imuld", "imulc", "ipow", "idiv", "update", "del", "copy", "round",
+           "selfsub", "selfadd", "selfmul", "selfupd"]
 
 def gen_key(rng, ids, deg2):
     ln = min(len(ids), rng.choice([1, 2, 2] if deg2 else [1, 2, 2, 3]))
@@ -984,19 +1059,64 @@ def multi_case(rng):
             mut = {"op": "cons", "con": gen_constraints(rng, min(nxt, 4), kind)[0]}
         elif op == "popoffset":
             mut = {"op": "popoffset"}
+        elif op in ("clear", "copy", "round", "selfsub", "selfadd", "selfmul", "selfupd", "ipow"):
+            mut = {"op": op}
+        elif op in ("fill", "update"):
+            # several terms at once, over old labels in a new order and / or brand-new labels
+            pool = rng.sample(ids, rng.randint(0, len(ids)))
+            for _ in range(rng.choice([0, 1, 1, 2])):
+                pool.append(nxt); nxt += 1
+            rng.shuffle(pool)
+            pool = pool or [0]
+            mut = {"op": op, "terms": [[gen_key(rng, pool, deg2), gen_coef(rng, False)] for _ in range(rng.randint(1, 3))]}
+        elif op == "imuld":
+            # `H *= {...}`: one or two terms; spin z*z and boolean x*(1-x) make a label drop out
+            t = rng.random()
+            i = rng.randrange(nxt)
+            if t < 0.35:
+                q = [[[i], "1"]]
+            elif t < 0.6:
+                q = [[[], "1"], [[i], "-1"]]
+            else:
+                q = [[gen_key(rng, ids, True)[:1], gen_coef(rng, False)] for _ in range(rng.randint(1, 2))]
+                if rng.random() < 0.5:
+                    q.append([[], gen_coef(rng, False)])
+            mut = {"op": "imuld", "q": q}
+        elif op == "imulc":
+            mut = {"op": "imulc", "v": rng.choice(["0", "0", "-1", "2", "1/2"])}
+        elif op == "idiv":
+            mut = {"op": "idiv", "v": rng.choice(["2", "-4", "1/2"])}
+        elif op == "del":
+            mut = {"op": "del", "k": rng.randrange(8)}
+        elif op == "single":
+            # reduce the model to one term over one variable (so that a following product can make it drop out)
+            mut = {"op": "single", "i": rng.randrange(nxt), "v": gen_coef(rng, False)}
         else:
             mut = {"op": "refresh"}
-        if kind == "PCSO" and mut.get("v") and not dyadic(mut["v"]):
-            mut["v"] = "1"
+        if kind == "PCSO":
+            fix = lambda v: v if dyadic(v) else "1"
+            if mut.get("v"):
+                mut["v"] = fix(mut["v"])
+            for fld in ("terms", "q"):
+                if mut.get(fld):
+                    mut[fld] = [[k, fix(v)] for k, v in mut[fld]]
         return mut
     for k in range(rng.randint(2, 4)):
         mut = None
         if k > 0:
             r = rng.random()
-            if r < 0.2:
+            if r < 0.1:
                 ops = ["cancel", "refresh"]          # the variable list shrinks and is renumbered
-            elif r < 0.3:
+            elif r < 0.2:
                 ops = ["cancel", "refresh", "newvar"]  # same count, different variables
+            elif r < 0.3:
+                ops = ["clear", "fill"]              # rebuilt in place with another label set
+            elif r < 0.4:
+                ops = ["single", "imuld", "newvar"]  # a label drops out of an in-place product, then a new variable
+            elif r < 0.45:
+                ops = ["single", "ipow", "newvar"]
+            elif r < 0.5:
+                ops = [rng.choice(["selfsub", "imulc", "selfmul", "imuld"]), rng.choice(["newvar", "fill"])]
             else:
                 ops = [rng.choice(MUT_OPS) for _ in range(rng.choice([1, 1, 2, 3]))]
             mut = [one_edit(op) for op in ops]
@@ -1010,10 +1130,15 @@ def multi_case(rng):
     return c
 
 def apply_mut(obj, mut, L, style):
+    """one edit; returns the object the name is bound to afterwards (`copy`, `round` and a non in-place fallback
+    of an augmented assignment give a new one)"""
+    import operator
     plain = type(obj) is dict
     op = mut["op"]
+    key_of = lambda ids: tuple(lab_of(L, i) for i in ids)
+    as_dict = lambda terms: {key_of(k): num_of(v, style) for k, v in terms}
     if op in ("set", "add"):
-        key, v = tuple(lab_of(L, i) for i in mut["key"]), num_of(mut["v"], style)
+        key, v = key_of(mut["key"]), num_of(mut["v"], style)
         if op == "set":
             obj[key] = v
         elif plain:
@@ -1041,6 +1166,43 @@ def apply_mut(obj, mut, L, style):
         con = mut["con"]
         p = {tuple(lab_of(L, i) for i in key): num_of(v, "int") for key, v in con["p"]}
         getattr(obj, "add_constraint_%s_zero" % con["rel"])(p)
+    elif op == "clear":
+        obj.clear()
+    elif op == "fill":
+        for k, v in mut["terms"]:
+            obj[key_of(k)] = num_of(v, style)
+    elif op == "update":
+        obj.update(as_dict(mut["terms"]))
+    elif op == "single":
+        obj.clear()
+        obj[(lab_of(L, mut["i"]),)] = num_of(mut["v"], style)
+    elif op == "del":
+        ks = list(obj)
+        if ks:
+            del obj[ks[mut["k"] % len(ks)]]
+    elif op == "copy":
+        obj = obj.copy()
+    elif plain:
+        pass                                   # the remaining edits are arithmetic of the model classes
+    elif op == "imuld":
+        obj = operator.imul(obj, as_dict(mut["q"]))
+    elif op == "imulc":
+        obj = operator.imul(obj, num_of(mut["v"], style))
+    elif op == "idiv":
+        obj = operator.itruediv(obj, Fraction(mut["v"]))     # a Fraction divisor keeps int / Fraction values exact
+    elif op == "ipow":
+        obj = operator.ipow(obj, 2)
+    elif op == "round":
+        obj = round(obj)
+    elif op == "selfsub":
+        obj = operator.isub(obj, obj)
+    elif op == "selfadd":
+        obj = operator.iadd(obj, obj)
+    elif op == "selfmul":
+        obj = operator.imul(obj, obj)
+    elif op == "selfupd":
+        obj.update(obj)
+    return obj
 
 def run_multi(ctx, c):
     """build the object once, then: call, edit in place, call again, ... — every call is prepared from the state
@@ -1054,13 +1216,16 @@ def run_multi(ctx, c):
         if st["mut"]:
             try:
                 for mut in st["mut"]:
-                    apply_mut(obj, mut, L, c["num"])
+                    obj = apply_mut(obj, mut, L, c["num"])
                     ctx.count("multi:edit:" + mut["op"])
             except Exception as e:
                 ctx.count("multi:edit-raises:" + exc_name(e))
                 break
+        fn = st["fn"]
+        if st["via"] == "free" and fn in ("qubo", "quso") and any(len(set(key)) > 2 for key in obj):
+            fn = "pubo" if fn == "qubo" else "puso"      # a product raised the degree: only the general solver applies
         cs = {k2: v for k2, v in c.items() if k2 != "steps"}
-        cs.update(fn=st["fn"], via=st["via"], all=st["all"], valid=st["valid"], step=k, seed=c["seed"] + k, multi=c,
+        cs.update(fn=fn, via=st["via"], all=st["all"], valid=st["valid"], step=k, seed=c["seed"] + k, multi=c,
                   terms=[[[L.ident(l) for l in key], fs(v)] for key, v in obj.items()])
         e = prepare(ctx, cs, L, obj, state_tag(obj), eager=True)
         if e is not None:
@@ -1161,7 +1326,7 @@ def process(ctx, cases):
             continue
         bad = oracle(c, d0, pred, L, res, log, V)
         if bad:
-            ctx.violation(D1_SIG if d1_input(c, tag) else "C09:" + fam, rec, bad)
+            ctx.violation("C09:multi" if fam == "multi" else D1_SIG if d1_input(c, tag) else "C09:" + fam, rec, bad)
 
 def absent_variable(ctx, c, obj):
     """a recorded constraint mentions a label that is not a variable of the model (see ABSENT_AS_FINDING)"""
@@ -1201,7 +1366,9 @@ def gen_all(ctx):
     cases += [huge_case(rng) for _ in range(ctx.scale(25, 400))]
     cases += [tie_case(rng, rng.choice(["free", "method"])) for _ in range(ctx.scale(500, 6000))]
     cases += [raise_case(rng) for _ in range(ctx.scale(500, 6000))]
-    cases += [multi_case(rng) for _ in range(ctx.scale(400, 5000))]
+    cases += [multi_case(rng) for _ in range(ctx.scale(600, 7000))]
+    # round 4
+    cases += [vtype_case(rng) for _ in range(ctx.scale(600, 7000))]
     return cases
 
 def check(ctx):
